@@ -16,6 +16,7 @@
 #include <kernel/lafem/sparse_matrix_csr.hpp>
 #include <kernel/lafem/sparse_matrix_bcsr.hpp>
 #include <kernel/lafem/sparse_layout.hpp>
+#include <kernel/adjacency/graph.hpp>
 #include <memory>
 
 using namespace FEAT;
@@ -80,7 +81,7 @@ static std::string op_str(const Op& o)
   std::ostringstream s;
   switch(o.k)
   {
-  case O_CREATE: s << "create(s" << o.j << "," << (o.a == 0 ? "filled" : o.a == 1 ? "empty" : "unsorted") << ")"; break;
+  case O_CREATE: s << "create(s" << o.j << "," << (o.a == 0 ? "filled" : o.a == 1 ? "empty" : o.a == 2 ? "variant2" : "graph") << ")"; break;
   case O_CLONE: s << "s" << o.j << ".clone(s" << o.i << "," << clone_name[o.a] << ")"; break;
   case O_CONVERT: s << "s" << o.j << ".convert(s" << o.i << ")"; break;
   case O_MOVE_ASSIGN: s << "s" << o.j << "=move(s" << o.i << ")"; break;
@@ -101,7 +102,7 @@ static std::string op_class(const Op& o, const int* ty)
   std::ostringstream s;
   switch(o.k)
   {
-  case O_CREATE: s << "create " << t_name[ty[o.j]] << (o.a == 0 ? " filled" : o.a == 1 ? " empty" : " from unsorted arrays"); break;
+  case O_CREATE: s << "create " << t_name[ty[o.j]] << (o.a == 0 ? " filled" : o.a == 1 ? " empty" : o.a == 3 ? " from a Graph" : t_kind[ty[o.j]] == K_SV ? " from unsorted arrays" : (t_kind[ty[o.j]] == K_DV || t_kind[ty[o.j]] == K_DVB) ? " (size, value)" : " allocating ctor"); break;
   case O_CLONE: s << t_name[ty[o.j]] << ".clone(" << t_name[ty[o.i]] << "," << clone_name[o.a] << ")" << (o.i == o.j ? " self" : ""); break;
   case O_CONVERT: s << t_name[ty[o.j]] << ".convert(" << t_name[ty[o.i]] << ")"; break;
   case O_MOVE_ASSIGN: s << t_name[ty[o.j]] << " move-assign" << (o.i == o.j ? " self" : ""); break;
@@ -233,17 +234,25 @@ static Verdict m_apply(MState& M, const Op& o, const int* ty, std::string& why)
     switch(t_kind[tj])
     {
     case K_DV:
-      if(o.a == 0) { sj.si = {3}; sj.el.push_back(m_new(M, 3, db, {1, 2, 3}, true)); } else sj.si = {0};
+      if(o.a == 0) { sj.si = {3}; sj.el.push_back(m_new(M, 3, db, {1, 2, 3}, true)); }
+      else if(o.a == 2) { sj.si = {3}; sj.el.push_back(m_new(M, 3, db, {7, 7, 7}, true)); }   // (size, value) constructor
+      else sj.si = {0};
       break;
     case K_DVB:
-      if(o.a == 0) { sj.si = {2}; sj.el.push_back(m_new(M, 4, db, {1, 2, 3, 4}, true)); } else sj.si = {0};
+      if(o.a == 0) { sj.si = {2}; sj.el.push_back(m_new(M, 4, db, {1, 2, 3, 4}, true)); }
+      else if(o.a == 2) { sj.si = {2}; sj.el.push_back(m_new(M, 4, db, {7, 7, 7, 7}, true)); }
+      else sj.si = {0};
       break;
     case K_CSR:
       if(o.a == 0) { sj.si = {4, 2, 2, 3}; sj.el.push_back(m_new(M, 3, db, {1, 2, 3}, true)); sj.ix.push_back(m_new(M, 3, ib, {0, 1, 1}, true)); sj.ix.push_back(m_new(M, 3, ib, {0, 2, 3}, true)); }
+      else if(o.a == 2) { sj.si = {4, 2, 2, 3}; sj.ix.push_back(m_new(M, 3, ib, {}, false)); sj.ix.push_back(m_new(M, 3, ib, {}, false)); sj.el.push_back(m_new(M, 3, db, {}, false)); }   // allocating ctor (rows, cols, used)
+      else if(o.a == 3) { sj.si = {4, 2, 2, 3}; sj.el.push_back(m_new(M, 3, db, {0, 0, 0}, true)); sj.ix.push_back(m_new(M, 3, ib, {0, 1, 1}, true)); sj.ix.push_back(m_new(M, 3, ib, {0, 2, 3}, true)); }   // ctor(Graph)
       else sj.si = {6, 2, 3, 0};
       break;
     case K_BCSR:
       if(o.a == 0) { sj.si = {2, 1, 2, 1}; sj.el.push_back(m_new(M, 4, db, {1, 2, 3, 4}, true)); sj.ix.push_back(m_new(M, 1, ib, {1}, true)); sj.ix.push_back(m_new(M, 2, ib, {0, 1}, true)); }
+      else if(o.a == 2) { sj.si = {2, 1, 2, 1}; sj.ix.push_back(m_new(M, 1, ib, {}, false)); sj.ix.push_back(m_new(M, 2, ib, {}, false)); sj.el.push_back(m_new(M, 4, db, {}, false)); }
+      else if(o.a == 3) { sj.si = {2, 1, 2, 1}; sj.el.push_back(m_new(M, 4, db, {0, 0, 0, 0}, true)); sj.ix.push_back(m_new(M, 1, ib, {1}, true)); sj.ix.push_back(m_new(M, 2, ib, {0, 1}, true)); }
       else sj.si = {2, 1, 2, 0};
       break;
     case K_SV:
@@ -397,7 +406,7 @@ static Verdict m_apply(MState& M, const Op& o, const int* ty, std::string& why)
 static void enumerate_ops(const MState& M, const int* ty, std::vector<Op>& out)
 {
   out.clear();
-  for(int j = 0; j < 3; ++j) if(!M.s[j].present) { out.push_back(Op{O_CREATE, j, j, 0}); out.push_back(Op{O_CREATE, j, j, 1}); if(t_kind[ty[j]] == K_SV) out.push_back(Op{O_CREATE, j, j, 2}); }
+  for(int j = 0; j < 3; ++j) if(!M.s[j].present) { out.push_back(Op{O_CREATE, j, j, 0}); out.push_back(Op{O_CREATE, j, j, 1}); out.push_back(Op{O_CREATE, j, j, 2}); if(t_kind[ty[j]] == K_CSR || t_kind[ty[j]] == K_BCSR) out.push_back(Op{O_CREATE, j, j, 3}); }
   for(int i = 0; i < 3; ++i)
   {
     if(!M.s[i].present) continue;
@@ -437,11 +446,13 @@ template<int N> ContP create_real(int variant)
   constexpr int kind = c_kind(N);
   if constexpr(kind == K_DV)
   {
+    if(variant == 2) return std::make_unique<ContT<N>>(Index(3), DT(7));
     if(variant != 0) return std::make_unique<ContT<N>>(Index(0));
     auto c = std::make_unique<ContT<N>>(Index(3)); fill_vec(c->obj, {1, 2, 3}); return c;
   }
   else if constexpr(kind == K_DVB)
   {
+    if(variant == 2) return std::make_unique<ContT<N>>(Index(2), DT(7));
     if(variant != 0) return std::make_unique<ContT<N>>(Index(0));
     auto c = std::make_unique<ContT<N>>(Index(2));
     DT* p = c->obj.template elements<Perspective::pod>(); for(int k = 0; k < 4; ++k) p[k] = DT(k + 1);
@@ -449,6 +460,8 @@ template<int N> ContP create_real(int variant)
   }
   else if constexpr(kind == K_CSR)
   {
+    if(variant == 2) return std::make_unique<ContT<N>>(Index(2), Index(2), Index(3));
+    if(variant == 3) { const Index dp[3] = {0, 2, 3}, ii[3] = {0, 1, 1}; Adjacency::Graph g(Index(2), Index(2), Index(3), dp, ii); return std::make_unique<ContT<N>>(g); }
     if(variant != 0) return std::make_unique<ContT<N>>(Index(2), Index(3));
     DenseVector<DT, IT> val(3); DenseVector<IT, IT> col(3), rp(3);
     fill_vec(val, {1, 2, 3}); fill_vec(col, {0, 1, 1}); fill_vec(rp, {0, 2, 3});
@@ -456,6 +469,8 @@ template<int N> ContP create_real(int variant)
   }
   else if constexpr(kind == K_BCSR)
   {
+    if(variant == 2) return std::make_unique<ContT<N>>(Index(1), Index(2), Index(1));
+    if(variant == 3) { const Index dp[2] = {0, 1}, ii[1] = {1}; Adjacency::Graph g(Index(1), Index(2), Index(1), dp, ii); return std::make_unique<ContT<N>>(g); }
     if(variant != 0) return std::make_unique<ContT<N>>(Index(1), Index(2));
     DenseVector<DT, IT> val(4); DenseVector<IT, IT> col(1), rp(2);
     fill_vec(val, {1, 2, 3, 4}); fill_vec(col, {1}); fill_vec(rp, {0, 1});
@@ -1284,6 +1299,7 @@ int main(int argc, char** argv)
     "excluded: self-convert, DV<->DVB convert of ranged / moved-from sources, layout()/range of moved-from containers, range with size 0",
     "values of arrays after clone(Layout/Allocate) and ctor(layout) are undefined: read (for ASan) but not compared and not part of the state key",
     "public accessors (size, used_elements, rows/columns, elements(), operator()) are compared with the reference after every step, on alternate transitions as the very first access before any raw array is read; alternate same-type clones use the by-value overload",
+    "not exercised (out of the property's scope or covered elsewhere): serialisation to streams/files, checkpoint members and SerialConfig (C05; in-memory serialize/deserialize is part of the grown-vector chains), random-fill constructors and MemoryPool::set_memory(rng), deprecated MemoryPool::download/upload/get_element, generic DenseVector::convert(VT_) of meta vectors, linear algebra members, Runtime::abort",
     "Runtime::finalize's leak check is evaluated as MemoryPool::_pool.empty() after destroying all containers at every transition (workers leave through _exit)"
   };
   spec.max_fail_per_worker = 100000;
